@@ -334,9 +334,46 @@ func ruleGUARD1(c *Ctx) []Ob {
 		o.add(UNDECIDED, "roles", "-", "catalog reader not found")
 		return o.list
 	}
+	namesCollection := func(fn *ssa.Function) bool {
+		fn = rootFunc(fn)
+		for _, p := range fn.Params {
+			if b, ok := p.Type().Underlying().(*types.Basic); ok && b.Kind() == types.String {
+				return true
+			}
+			if pt, ok := p.Type().(*types.Pointer); ok && c.libNamedIs(pt.Elem(), "query", "Query") {
+				return true
+			}
+		}
+		return false
+	}
+	// transaction bodies handed to a tx-scope helper (db.update(func(tx) error {...}))
+	for _, tb := range c.txBodies() {
+		if c.pkgRel(tb.Fn) != "" || len(tb.Fn.Blocks) == 0 {
+			continue
+		}
+		key := c.fname(tb.Fn) + "/existence guard first"
+		pos := relPath(c, tb.Site.Pos())
+		if !namesCollection(tb.Fn) {
+			o.add(INFO, key, pos, "operation names no collection")
+			continue
+		}
+		bad, any := gs.walk(tb.Fn, tb.Fn.Blocks[0], 0)
+		switch {
+		case bad != "":
+			o.add(VIOLATED, key, pos, "inside the transaction body the store is accessed at %s before the collection's catalog entry has been looked up", bad)
+		case !any:
+			o.add(VIOLATED, key, pos, "no catalog lookup guards this transaction body")
+		default:
+			o.add(OK, key, pos, "the first store access of the transaction body on every path is the catalog lookup of the collection")
+		}
+	}
+	helpers := c.txScopeHelpers()
 	for _, op := range c.openers() {
 		if op.Transfer || c.pkgRel(op.Fn) != "" {
 			continue
+		}
+		if _, isHelper := helpers[op.Fn]; isHelper {
+			continue // judged through the bodies passed to it
 		}
 		takes := false
 		for _, p := range op.Fn.Params[1:] {
